@@ -79,7 +79,7 @@ def run(ctx):
     # assignment targets, calls in operands) — the memo tables of ONE body collect thousands of entries
     T = prog.T
     I = lambda s: T("Identifier", s)
-    for nst, pad in [(n, p) for n in ((450,) if q else (450, 1500, 3000)) for p in range(12 if q else 24)]:
+    for nst, pad in [(n, p) for n in ((450,) if q else (450, 1200)) for p in range(12 if q else 16)]:
         for shape in range(3 if pad == 0 else 1):
             # `pad` plain statements first: shifts where in a statement a table reaches any given size
             b = [I("x"), T("Equals", "="), T("NumericLiteral", "1")] * pad
